@@ -592,7 +592,7 @@ func TestVerifC05(t *testing.T) {
 	} else {
 		c.MinDistinct(0) // replay of one case
 	}
-	n := kit.Scale(600, 5000)
+	n := kit.Scale(600, 3000)
 	for i := 0; i < n; i++ {
 		if only >= 0 && i != only {
 			continue
